@@ -5,7 +5,7 @@ and of the pieces of `main.py` / `clock.py` they touch in non-real-time mode
 one iteration of `ClockScheduler.run`).
 
 Shape.  A routine body is a finite script over a behaviour alphabet (`Act`): yield a value,
-return (end of script), raise, raise `StopStream`, raise `YieldAndReset` / `AlwaysYield`, call
+return (end of script), raise (an `Exception` or a bare `BaseException`), raise `StopStream`, raise `YieldAndReset` / `AlwaysYield`, call
 `next` on another routine (catching everything / letting exceptions propagate / embedding the
 returned value with a `yield`), apply `play/pause/resume/stop/reset` to a routine, wait on a
 `Condition` or a `FlowVar`, signal / unhang / set the test, bind a `FlowVar`, log.
@@ -47,7 +47,13 @@ deriving Repr, DecidableEq, Inhabited
     plain `Exception` (FlowVar rebind, `wait` outside a routine). -/
 inductive Exc where
   | stop | paused | value | runtime | routine | generic
+  | keyboard | sysexit | genexit | custombase     -- BaseException that is not an Exception
 deriving Repr, DecidableEq, Inhabited
+
+/-- `BaseException` subclasses outside `Exception`: `except Exception` does not catch them. -/
+def Exc.isBase : Exc → Bool
+  | .keyboard | .sysexit | .genexit | .custombase => true
+  | _ => false
 
 inductive Res where
   | val (v : Val) | exc (e : Exc)
@@ -69,6 +75,7 @@ deriving Repr, DecidableEq, Inhabited
 inductive Act where
   | yield (v : Val)
   | raise
+  | raiseB (e : Exc)
   | raiseStop
   | yar (v : Val)
   | ay (v : Val)
@@ -300,6 +307,7 @@ def M.execAct (m : M) (r : Nat) (R : Rt) (k : Nat) : M :=
     match a with
     | .yield v => m.yieldVal r R k v
     | .raise => m.raiseIn r R .value
+    | .raiseB e => m.raiseIn r R e
     | .raiseStop => m.raiseIn r R .stop
     | .yar v => m.exit r { R with pc := none, state := .init, last := v } (.val v)
     | .ay v => m.exit r { R with pc := none, terminal := some v, state := .done, last := v } (.val v)
@@ -339,7 +347,12 @@ def M.execAct (m : M) (r : Nat) (R : Rt) (k : Nat) : M :=
 def M.handleReturn (m : M) (r : Nat) (R : Rt) (k : Nat) (res : Res) : M :=
   let m0 := { m with pending := none }
   match R.script[k]? with
-  | some (.nest r' .catch _) => (m0.addLog (.nested r r' res)).advance r R k
+  | some (.nest r' .catch _) =>
+    match res with
+    | .val _ => (m0.addLog (.nested r r' res)).advance r R k
+    | .exc e =>
+      -- the body catches with `except Exception`: KeyboardInterrupt & co. pass through
+      if e.isBase then m0.raiseIn r R e else (m0.addLog (.nested r r' res)).advance r R k
   | some (.nest r' .prop _) =>
     match res with
     | .val _ => (m0.addLog (.nested r r' res)).advance r R k
